@@ -85,7 +85,7 @@ VARIABLES
     ret,      \* assignments made by the last step: sequence of [id, a, g, S, post]
     \* ---- ghost ----
     usedBy,   \* token -> set of <<id, attempt>> the pair was assigned to, history-wide
-    pchg      \* signing_period was changed at some point of this history
+    pchg      \* [p, a, d]: signing_period (p) / max_signing_attempt (a) / max_de_size (d) was changed at some point of this history
 
 core  == <<h, params, q, nser, tssAct, ownAct, cool, count, sig, att, tok, exps, pend, mapped, nSucc, nFail, tr, trSig>>
 vars  == <<h, params, q, nser, tssAct, ownAct, cool, count, sig, att, tok, exps, pend, mapped, nSucc, nFail, tr, trSig,
@@ -137,7 +137,7 @@ Init ==
     /\ tr = "none" /\ trSig = 0
     /\ out = "init" /\ pen = {} /\ ret = <<>>
     /\ usedBy = [t \in Token |-> {}]
-    /\ pchg = FALSE
+    /\ pchg = [p |-> FALSE, a |-> FALSE, d |-> FALSE]
 
 Rejected == /\ out' = "rej" /\ pen' = {} /\ ret' = <<>>
             /\ UNCHANGED <<core, usedBy, pchg>>
@@ -387,7 +387,26 @@ EndBlock(npre, npost) ==
 SetPeriod(p) ==
     /\ p # params.period
     /\ params' = [params EXCEPT !.period = p]
-    /\ pchg' = TRUE
+    /\ pchg' = [pchg EXCEPT !.p = TRUE]
+    /\ out' = "ok" /\ pen' = {} /\ ret' = <<>>
+    /\ UNCHANGED <<h, q, nser, tssAct, ownAct, cool, count, sig, att, tok, exps, pend, mapped, nSucc, nFail, tr, trSig, usedBy>>
+
+\* Environment: governance changes max_signing_attempt.  Nothing stored changes; the rule "attempt + 1 > maximum =>
+\* the signing falls" reads the value current at the time-out, so a signing whose attempt counter is already at or
+\* beyond a lowered maximum falls at its next time-out.
+SetMaxAtt(m) ==
+    /\ m # params.maxAtt
+    /\ params' = [params EXCEPT !.maxAtt = m]
+    /\ pchg' = [pchg EXCEPT !.a = TRUE]
+    /\ out' = "ok" /\ pen' = {} /\ ret' = <<>>
+    /\ UNCHANGED <<h, q, nser, tssAct, ownAct, cool, count, sig, att, tok, exps, pend, mapped, nSucc, nFail, tr, trSig, usedBy>>
+
+\* Environment: governance changes max_de_size.  Queues longer than a lowered maximum stay as they are; every later
+\* submission is judged against the value current at that time (queued + batch <= maximum).
+SetMaxDE(m) ==
+    /\ m # params.maxDE
+    /\ params' = [params EXCEPT !.maxDE = m]
+    /\ pchg' = [pchg EXCEPT !.d = TRUE]
     /\ out' = "ok" /\ pen' = {} /\ ret' = <<>>
     /\ UNCHANGED <<h, q, nser, tssAct, ownAct, cool, count, sig, att, tok, exps, pend, mapped, nSucc, nFail, tr, trSig, usedBy>>
 
@@ -402,6 +421,8 @@ Next ==
     \/ Transition
     \/ \E n \in PreSet, k \in PostSet : EndBlock(n, k)
     \/ \E p \in PeriodSet : SetPeriod(p)
+    \/ \E m \in MaxAttSet : SetMaxAtt(m)
+    \/ \E m \in MaxDESet : SetMaxDE(m)
 
 Spec == Init /\ [][Next]_vars /\ WF_vars(EndBlock(0, 0))
 
@@ -425,7 +446,7 @@ NoReuse == \A t \in Token : Cardinality(usedBy[t]) <= 1
 QueueFresh == \A a \in Addr : \A i \in 1..Len(q[a]) :
                   /\ usedBy[<<a, q[a][i]>>] = {}
                   /\ \A j \in 1..Len(q[a]) : i < j => q[a][i] < q[a][j]
-QueueBound == \A a \in Addr : Len(q[a]) <= params.maxDE
+QueueBound == pchg.d \/ \A a \in Addr : Len(q[a]) <= params.maxDE
 \* what an attempt announces is what the ghost recorded, and it is a real pair of that member
 TokSound == \A id \in Ids : \A m \in DOMAIN tok[id].asg :
                 /\ tok[id].asg[m] \in 1..nser[m]
@@ -454,7 +475,7 @@ Lifecycle ==
         /\ sig[id].status = "WAITING" => att[id].present /\ att[id].a = sig[id].attempt
         /\ sig[id].status = "FALLEN" => ~att[id].present
         /\ sig[id].status = "SUCCESS" => (att[id].present => att[id].signed = att[id].mem)
-        /\ sig[id].status # "NONE" => sig[id].attempt \in 1..params.maxAtt /\ sig[id].created <= h
+        /\ sig[id].status # "NONE" => sig[id].attempt >= 1 /\ (pchg.a \/ sig[id].attempt <= params.maxAtt) /\ sig[id].created <= h
         /\ sig[id].status = "NONE" => ~att[id].present /\ sig[id].attempt = 0
 PendSound ==
     /\ \A i, j \in 1..Len(pend) : i # j => pend[i] # pend[j]
@@ -479,13 +500,13 @@ InvC10 == ExpsSound /\ Lifecycle /\ PendSound /\ CallbackOnce /\ FlagsAgree /\ T
 
 \* while signing_period is unchanged: no stored attempt is overdue at the start of a block (it was
 \* consumed at the end of block expH exactly), and the FIFO is sorted by expiry
-OnTime == pchg \/
+OnTime == pchg.p \/
     /\ \A id \in Ids : att[id].present => att[id].expH >= h /\ att[id].expH <= h + params.period
     /\ \A i, j \in 1..Len(exps) : i < j => att[exps[i][1]].expH <= att[exps[j][1]].expH
     /\ \A id \in Ids : sig[id].status = "WAITING" =>
             att[id].expH = sig[id].created + sig[id].attempt * params.period
 \* bounded termination (safety form of the liveness property)
-BoundedTermination == pchg \/
+BoundedTermination == pchg.p \/ pchg.a \/
     \A id \in Ids : sig[id].status = "WAITING" => h <= sig[id].created + params.maxAtt * params.period
 
 Inv == TypeOK /\ InvC05 /\ InvC10
@@ -552,7 +573,7 @@ NoEarlyTimeoutA ==
     \A id \in Ids : (att[id].present /\ (~att'[id].present \/ att'[id].a # att[id].a)) =>
                         EndStep /\ att[id].expH <= h /\ (att'[id].present => att'[id].a = att[id].a + 1)
 \* ... and (period unchanged) exactly then: at the end of block expH the record is consumed
-ExactTimeoutA == pchg \/ pchg' \/
+ExactTimeoutA == pchg.p \/ pchg'.p \/
     \A id \in Ids : (EndStep /\ att[id].present /\ att[id].expH <= h) =>
                         (~att'[id].present \/ att'[id].a = att[id].a + 1)
 \* a new attempt record: fresh, empty, expires one period later
@@ -581,7 +602,7 @@ TimeoutA ==
                Consumed(id) /\ att[id].expH <= h /\ att[id].signed # att[id].mem
         \* used-up attempts always end in FALLEN
         /\ (sig[id].status = "WAITING" /\ Consumed(id) /\ att[id].signed # att[id].mem
-               /\ sig[id].attempt = params.maxAtt) => sig'[id].status = "FALLEN"
+               /\ sig[id].attempt >= params.maxAtt) => sig'[id].status = "FALLEN"
         \* a consumed record whose members all signed belongs to a signing that is (now) SUCCESS
         /\ (Consumed(id) /\ att[id].signed = att[id].mem) => sig'[id].status = "SUCCESS" /\ ~att'[id].present
 \* exactly the assigned members that did not sign an attempt timing out now are penalised (once), in the
